@@ -415,7 +415,8 @@ def bounded(pr):
     A = atoms_of('3SGB-subset')
     # a small set (a fragment of under 150 atoms, first residues of 1HPX chain B incl. the ASP 29 / ARG 87 region is not needed: any
     # fragment with side chains) together with a big one and with its own renamed copy: sizes on both sides of any size switch
-    pairs = [('own copy', A, A)]
+    # 1HPX has a non-covalently coupled pair (ASP 25 A / ASP 25 B): coupling marks are compared too
+    pairs = [('own copy', A, A), ('1HPX + 3SGB-subset', atoms_of('1HPX'), A)]
     # small sets (under 200 atoms): the residues around each arginine of 1HPX chain B (its guanidinium hydrogens are the ones whose
     # placement depends on the order of the bond lists), each with a big far structure and with its own renamed copy
     chain_b = [l for l in atoms_of('1HPX', 'B') if l[:6] == 'ATOM  ']
@@ -460,7 +461,9 @@ def bounded(pr):
                 nav = len(native.run_text(both).conformations['AVR'].groups) if False else None
                 n1 = len(alone1)
                 part1, part2 = (rec[:n1], rec[n1:]) if order == 'AB' else (rec[len(alone2):], rec[:len(alone2)])
-                d = native.diff_records({'x': alone1}, {'x': part1}, tol=1e-9) + native.diff_records({'x': alone2}, {'x': part2}, tol=1e-9)
+                keys_ = ('pka', 'evol', 'eloc', 'buried', 'nvol', 'type', 'reported', 'discarded', 'coupled')
+                d = native.diff_records({'x': alone1}, {'x': part1}, tol=1e-9, keys=keys_) + \
+                    native.diff_records({'x': alone2}, {'x': part2}, tol=1e-9, keys=keys_)
                 if d and len(viol) < 3:
                     viol.append({'what': '%s separated by %s A along axis %d (%s): %s' % (pname, sep, axis, order, d[:2]), 'replay': None})
     pr.bounded.append({'name': 'C05-monitor: two far-apart sets vs each alone (per-conformation records)', 'evaluations': ev,
